@@ -20,6 +20,7 @@ type Program struct {
 	Prog  *ssa.Program
 	SPkg  *ssa.Package
 	Funcs map[string]*ssa.Function // by contract key, e.g. "(*FilterOptimizer).unionRange", "inRange"
+	cmaps map[*ssa.Global]*constMap
 }
 
 func repoDir() string {
